@@ -65,6 +65,9 @@ pub fn run(rep: &mut Report, thorough: bool) {
             let (dip, dmac) = &nsd[d[1] as usize];
             eth(dmac, &macs[d[3] as usize], ET_IP6, &nd_ns(&ip6[d[2] as usize], dip, &tg[d[0] as usize], &slla(&MAC_CLI), 0))
         });
+        // depth-2 histories: nothing learned from one frame (ARP sender, ND option, an earlier
+        // frame's MAC) may redirect the reply to a later frame
+        crate::props::pairs::pair_histories(rep, &cfg, &format!("pair-histories-{}", tag), &crate::props::pairs::l2l4_frames());
         // port sweeps, UDP payloads and TCP SYN
         let stun = stun_magic(&[], &ID12);
         let stun_cp = stun_classic(&stun_attr(3, &[0, 0, 0, 2]), &ID16);
